@@ -29,7 +29,7 @@ func vpAuthSysBody(stamp uint32, machine string, uid, gid uint32, aux []uint32) 
 func VPH_C10_squash() {
 	G := 4
 	if vpTier() == 1 {
-		G = 16
+		G = 8 // 16 (the protocol limit) did not finish in three hours: root squash forks on every gid == 0 test
 	}
 	uid, gid := vpU32("uid"), vpU32("gid")
 	naux := vpChoose("naux", 0, G)
